@@ -6,6 +6,7 @@
   theorem holds for every dispatch behaviour, every history and every batch composition.
 -/
 import JRV.Model.ConfigHeap
+import JRV.Model.ConfigHeapConc
 import JRV.Generated
 
 set_option linter.unusedSimpArgs false
@@ -265,5 +266,408 @@ example :
     (serveEntry (fun v (_ : Req) => formOf v) h 1 ⟨false, .none⟩).map (·.2) = some 10 ∧
     (serveEntry (fun v (_ : Req) => formOf v) h 1 ⟨true, .none⟩).map (·.2) = some 20 := by
   decide
+
+/- ---------- concurrent dispatcher threads (JRV.Model.ConfigHeapConc) ---------- -/
+
+private theorem applyMut_setVersion_length (h : Heap) (a n : Nat) :
+    (applyMut h a (.setVersion n)).cfgs.length = h.cfgs.length := by
+  unfold applyMut
+  cases h.cfgs[a]? <;> simp
+
+private theorem view_lt {h : Heap} {a : Nat} {v : CfgView} (hv : view h a = some v) : a < h.cfgs.length := by
+  obtain ⟨_, hc, _⟩ := view_some_bounds hv
+  exact (List.getElem?_eq_some_iff.mp hc).1
+
+/-- What is known of one thread, by program counter (`n0` = number of configuration objects of the
+    initial heap; `sv` = what the server's object observes, initially and — by the invariant — always). -/
+private def TInv {Reply} (mkReply : CfgView → Req → Reply) (mkInvalid : CfgView → PyVal → Reply)
+    (n0 srv : Nat) (sv : CfgView) (h : Heap) (t : Thread Reply) : Prop :=
+  match t.pc with
+  | .decide => t.cfgAddr = none
+  | .copy => needsCompat sv t.req = true ∧ t.cfgAddr = none
+  | .store => needsCompat sv t.req = true ∧ ∃ a, t.cfgAddr = some a ∧ n0 ≤ a ∧ view h a = some sv
+  | .reply =>
+      (needsCompat sv t.req = true ∧ ∃ a, t.cfgAddr = some a ∧ n0 ≤ a ∧ view h a = some { sv with version := 10 })
+      ∨ (needsCompat sv t.req = false ∧ t.cfgAddr = some srv)
+  | .done => t.reply = some (specReply mkReply mkInvalid sv (.valid t.req))
+
+/-- The inductive invariant of the interleaved system. -/
+private structure CInv {Reply} (mkReply : CfgView → Req → Reply) (mkInvalid : CfgView → PyVal → Reply)
+    (h0 : Heap) (srv : Nat) (sv : CfgView) (reqs : List Req) (s : Sys Reply) : Prop where
+  /-- every object of the initial heap observes what it observed initially -/
+  frame : ∀ a v, view h0 a = some v → view s.heap a = some v
+  /-- the heap only grows -/
+  size : h0.cfgs.length ≤ s.heap.cfgs.length
+  /-- thread `i` still serves request `i` -/
+  reqs : s.threads.map (·.req) = reqs
+  loc : ∀ (i : Nat) (t : Thread Reply), s.threads[i]? = some t → TInv mkReply mkInvalid h0.cfgs.length srv sv s.heap t
+  /-- a thread's `config` is bound to an allocated address -/
+  bound : ∀ (i : Nat) (t : Thread Reply) (a : Nat), s.threads[i]? = some t → t.cfgAddr = some a → a < s.heap.cfgs.length
+  /-- ownership: two threads are bound to the same address only if it is an initial one (the server's) -/
+  distinct : ∀ (i j : Nat) (ti tj : Thread Reply) (a : Nat), i ≠ j → s.threads[i]? = some ti → s.threads[j]? = some tj →
+      ti.cfgAddr = some a → tj.cfgAddr = some a → a < h0.cfgs.length
+
+private theorem tinv_mono {Reply} (mkReply : CfgView → Req → Reply) (mkInvalid : CfgView → PyVal → Reply)
+    (n0 srv : Nat) (sv : CfgView) (h h' : Heap) (t : Thread Reply)
+    (hv : ∀ a v, t.cfgAddr = some a → view h a = some v → view h' a = some v)
+    (ht : TInv mkReply mkInvalid n0 srv sv h t) : TInv mkReply mkInvalid n0 srv sv h' t := by
+  unfold TInv at ht ⊢
+  cases hpc : t.pc <;> simp only [hpc] at ht ⊢
+  · exact ht
+  · exact ht
+  · obtain ⟨hc, a, ha, hn, hva⟩ := ht
+    exact ⟨hc, a, ha, hn, hv a _ ha hva⟩
+  · rcases ht with ⟨hc, a, ha, hn, hva⟩ | h2
+    · exact Or.inl ⟨hc, a, ha, hn, hv a _ ha hva⟩
+    · exact Or.inr h2
+  · exact ht
+
+private theorem map_req_set {Reply} (ts : List (Thread Reply)) (i : Nat) (t t1 : Thread Reply)
+    (hti : ts[i]? = some t) (hreq : t1.req = t.req) : (ts.set i t1).map (·.req) = ts.map (·.req) := by
+  apply List.ext_getElem?
+  intro j
+  simp only [List.getElem?_map, List.getElem?_set]
+  by_cases hij : i = j
+  · subst hij
+    have : i < ts.length := (List.getElem?_eq_some_iff.mp hti).1
+    simp only [this, hti, hreq, ↓reduceIte, Option.map_some]
+  · simp [hij]
+
+/-- Thread `i` replaces the heap by `h1` and itself by `t1`: what has to be shown. -/
+private theorem cinv_update {Reply} (mkReply : CfgView → Req → Reply) (mkInvalid : CfgView → PyVal → Reply)
+    (h0 : Heap) (srv : Nat) (sv : CfgView) (reqs : List Req) (s : Sys Reply) (i : Nat) (t t1 : Thread Reply) (h1 : Heap)
+    (hinv : CInv mkReply mkInvalid h0 srv sv reqs s)
+    (hti : s.threads[i]? = some t)
+    (hreq : t1.req = t.req)
+    (hlen : s.heap.cfgs.length ≤ h1.cfgs.length)
+    (hframe : ∀ a v, (a < h0.cfgs.length ∨ ∃ (j : Nat) (tj : Thread Reply), j ≠ i ∧ s.threads[j]? = some tj ∧ tj.cfgAddr = some a) →
+        view s.heap a = some v → view h1 a = some v)
+    (hloc1 : TInv mkReply mkInvalid h0.cfgs.length srv sv h1 t1)
+    (hbound1 : ∀ a, t1.cfgAddr = some a → a < h1.cfgs.length)
+    (hdist1 : ∀ a, t1.cfgAddr = some a → t.cfgAddr = some a ∨ a < h0.cfgs.length ∨ s.heap.cfgs.length ≤ a) :
+    CInv mkReply mkInvalid h0 srv sv reqs { heap := h1, threads := s.threads.set i t1 } := by
+  have hilt : i < s.threads.length := (List.getElem?_eq_some_iff.mp hti).1
+  have hget : ∀ (j : Nat) (tj : Thread Reply), (s.threads.set i t1)[j]? = some tj →
+      (j = i ∧ tj = t1) ∨ (j ≠ i ∧ s.threads[j]? = some tj) := by
+    intro j tj hj
+    rw [List.getElem?_set] at hj
+    by_cases hij : i = j
+    · subst hij
+      simp [hilt] at hj
+      exact Or.inl ⟨rfl, hj.symm⟩
+    · simp [hij] at hj
+      exact Or.inr ⟨fun h => hij h.symm, hj⟩
+  refine ⟨?_, ?_, ?_, ?_, ?_, ?_⟩
+  · intro a v hav
+    exact hframe a v (Or.inl (view_lt hav)) (hinv.frame a v hav)
+  · exact Nat.le_trans hinv.size hlen
+  · show (s.threads.set i t1).map (·.req) = reqs
+    rw [map_req_set _ _ _ _ hti hreq]
+    exact hinv.reqs
+  · intro j tj hj
+    rcases hget j tj hj with ⟨_, rfl⟩ | ⟨hne, hj'⟩
+    · exact hloc1
+    · exact tinv_mono mkReply mkInvalid _ srv sv s.heap h1 tj
+        (fun a v ha hva => hframe a v (Or.inr ⟨j, tj, hne, hj', ha⟩) hva) (hinv.loc j tj hj')
+  · intro j tj a hj ha
+    rcases hget j tj hj with ⟨_, rfl⟩ | ⟨hne, hj'⟩
+    · exact hbound1 a ha
+    · exact Nat.lt_of_lt_of_le (hinv.bound j tj a hj' ha) hlen
+  · intro j k tj tk a hjk hj hk haj hak
+    rcases hget j tj hj with ⟨hji, htj⟩ | ⟨hnej, hj'⟩ <;> rcases hget k tk hk with ⟨hki, htk⟩ | ⟨hnek, hk'⟩
+    · exact absurd (hji.trans hki.symm) hjk
+    · subst htj
+      rcases hdist1 a haj with h | h | h
+      · exact hinv.distinct i k t tk a (fun e => hnek e.symm) hti hk' h hak
+      · exact h
+      · exact absurd (hinv.bound k tk a hk' hak) (by omega)
+    · subst htk
+      rcases hdist1 a hak with h | h | h
+      · exact hinv.distinct i j t tj a (fun e => hnej e.symm) hti hj' h haj
+      · exact h
+      · exact absurd (hinv.bound j tj a hj' haj) (by omega)
+    · exact hinv.distinct j k tj tk a hjk hj' hk' haj hak
+
+private theorem cinv_init {Reply} (mkReply : CfgView → Req → Reply) (mkInvalid : CfgView → PyVal → Reply)
+    (h0 : Heap) (srv : Nat) (sv : CfgView) (reqs : List Req) :
+    CInv mkReply mkInvalid h0 srv sv reqs (initSys h0 reqs) := by
+  have hget : ∀ (i : Nat) (t : Thread Reply), (initSys (Reply := Reply) h0 reqs).threads[i]? = some t →
+      t.pc = .decide ∧ t.cfgAddr = none := by
+    intro i t hi
+    simp only [initSys, List.getElem?_map] at hi
+    cases hr : reqs[i]? with
+    | none => simp [hr] at hi
+    | some r => simp [hr] at hi; subst hi; exact ⟨rfl, rfl⟩
+  refine ⟨fun _ _ hv => hv, Nat.le_refl _, ?_, ?_, ?_, ?_⟩
+  · simp [initSys, List.map_map, Function.comp_def]
+  · intro i t hi
+    obtain ⟨hpc, hca⟩ := hget i t hi
+    simp only [TInv, hpc]
+    exact hca
+  · intro i t a hi ha
+    rw [(hget i t hi).2] at ha
+    cases ha
+  · intro i j ti tj a _ hi _ ha _
+    rw [(hget i ti hi).2] at ha
+    cases ha
+
+private theorem cinv_step {Reply} (mkReply : CfgView → Req → Reply) (mkInvalid : CfgView → PyVal → Reply)
+    (h0 : Heap) (srv : Nat) (sv : CfgView) (reqs : List Req) (hs0 : view h0 srv = some sv)
+    (s s1 : Sys Reply) (i : Nat)
+    (hinv : CInv mkReply mkInvalid h0 srv sv reqs s) (hstep : step mkReply srv s i = some s1) :
+    CInv mkReply mkInvalid h0 srv sv reqs s1 := by
+  unfold step stepG at hstep
+  cases hti : s.threads[i]? with
+  | none => simp [hti] at hstep
+  | some t =>
+    simp only [hti] at hstep
+    have hsrv : view s.heap srv = some sv := hinv.frame srv sv hs0
+    have hsrvlt : srv < h0.cfgs.length := view_lt hs0
+    have hloc := hinv.loc i t hti
+    have hsize := hinv.size
+    unfold TInv at hloc
+    unfold stepThreadG at hstep
+    cases hpc : t.pc with
+    | decide =>
+      simp only [hpc, hsrv] at hstep hloc
+      by_cases hc : needsCompat sv t.req = true
+      · simp only [hc, ↓reduceIte, Option.some.injEq] at hstep
+        subst hstep
+        refine cinv_update mkReply mkInvalid h0 srv sv reqs s i t _ s.heap hinv hti rfl (Nat.le_refl _)
+          (fun _ _ _ hv => hv) ?_ ?_ ?_
+        · simp only [TInv]; exact ⟨hc, hloc⟩
+        · intro a ha; simp only [hloc] at ha; cases ha
+        · intro a ha; exact Or.inl ha
+      · simp only [hc, Bool.false_eq_true, ↓reduceIte, Option.some.injEq] at hstep
+        subst hstep
+        refine cinv_update mkReply mkInvalid h0 srv sv reqs s i t _ s.heap hinv hti rfl (Nat.le_refl _)
+          (fun _ _ _ hv => hv) ?_ ?_ ?_
+        · simp only [TInv]; exact Or.inr ⟨by simpa using hc, trivial⟩
+        · intro a ha
+          simp only [Option.some.injEq] at ha
+          omega
+        · intro a ha
+          simp only [Option.some.injEq] at ha
+          exact Or.inr (Or.inl (by omega))
+    | copy =>
+      simp only [hpc] at hstep hloc
+      obtain ⟨c, hca, hspec⟩ := copy_spec s.heap srv sv hsrv
+      have hcv := view_copy s.heap srv sv hsrv _ _ hspec
+      rw [hspec] at hstep
+      simp only [Option.some.injEq] at hstep
+      subst hstep
+      refine cinv_update mkReply mkInvalid h0 srv sv reqs s i t _ _ hinv hti rfl ?_ ?_ ?_ ?_ ?_
+      · simp [copyHeap]
+      · intro a v _ hv
+        exact view_append s.heap _ _ a v hv
+      · simp only [TInv]
+        exact ⟨hloc.1, _, rfl, hsize, hcv⟩
+      · intro a ha
+        simp only [Option.some.injEq] at ha
+        subst ha
+        simp [copyHeap]
+      · intro a ha
+        simp only [Option.some.injEq] at ha
+        exact Or.inr (Or.inr (by omega))
+    | store =>
+      simp only [hpc] at hstep hloc
+      obtain ⟨hc, a, hca, hn, hva⟩ := hloc
+      simp only [hca, Option.some.injEq] at hstep
+      subst hstep
+      refine cinv_update mkReply mkInvalid h0 srv sv reqs s i t _ _ hinv hti rfl ?_ ?_ ?_ ?_ ?_
+      · rw [applyMut_setVersion_length]; exact Nat.le_refl _
+      · intro a' v hown hv
+        have hne : a' ≠ a := by
+          rcases hown with hlt | ⟨j, tj, hji, hj, hja⟩
+          · omega
+          · intro e
+            subst e
+            have := hinv.distinct j i tj t a' hji hj hti hja hca
+            omega
+        rw [view_setVersion_ne _ a' a 10 hne]
+        exact hv
+      · simp only [TInv]
+        exact Or.inl ⟨hc, a, rfl, hn, view_setVersion_self _ a 10 sv hva⟩
+      · intro a' ha'
+        rw [applyMut_setVersion_length]
+        exact hinv.bound i t a' hti (hca.trans ha')
+      · intro a' ha'
+        exact Or.inl (hca.trans ha')
+    | reply =>
+      simp only [hpc] at hstep hloc
+      rcases hloc with ⟨hc, a, hca, hn, hva⟩ | ⟨hc, hca⟩
+      · simp only [hca, hva, Option.some.injEq] at hstep
+        subst hstep
+        refine cinv_update mkReply mkInvalid h0 srv sv reqs s i t _ s.heap hinv hti rfl (Nat.le_refl _)
+          (fun _ _ _ hv => hv) ?_ ?_ ?_
+        · simp only [TInv, specReply]
+          simp only [needsCompat] at hc
+          simp [hc]
+        · intro a' ha'; exact hinv.bound i t a' hti (hca.trans ha')
+        · intro a' ha'; exact Or.inl (hca.trans ha')
+      · simp only [hca, hsrv, Option.some.injEq] at hstep
+        subst hstep
+        refine cinv_update mkReply mkInvalid h0 srv sv reqs s i t _ s.heap hinv hti rfl (Nat.le_refl _)
+          (fun _ _ _ hv => hv) ?_ ?_ ?_
+        · simp only [TInv, specReply]
+          simp only [needsCompat] at hc
+          simp [hc]
+        · intro a' ha'; exact hinv.bound i t a' hti (hca.trans ha')
+        · intro a' ha'; exact Or.inl (hca.trans ha')
+    | done =>
+      simp only [hpc] at hstep
+      cases hstep
+
+private theorem cinv_reach {Reply} (mkReply : CfgView → Req → Reply) (mkInvalid : CfgView → PyVal → Reply)
+    (h0 : Heap) (srv : Nat) (sv : CfgView) (reqs : List Req) (hs0 : view h0 srv = some sv)
+    (s : Sys Reply) (hr : Reach mkReply srv (initSys h0 reqs) s) :
+    CInv mkReply mkInvalid h0 srv sv reqs s := by
+  induction hr with
+  | init => exact cinv_init mkReply mkInvalid h0 srv sv reqs
+  | step i _ hstep ih => exact cinv_step mkReply mkInvalid h0 srv sv reqs hs0 _ _ i ih hstep
+
+private theorem reach_of_run {Reply} (mkReply : CfgView → Req → Reply) (srv : Nat) (s0 : Sys Reply) (sched : List Nat) :
+    ∀ s s1, Reach mkReply srv s0 s → run mkReply srv s sched = some s1 → Reach mkReply srv s0 s1 := by
+  induction sched with
+  | nil =>
+    intro s s1 hr hrun
+    simp only [run, runG, Option.some.injEq] at hrun
+    subst hrun; exact hr
+  | cons i rest ih =>
+    intro s s1 hr hrun
+    simp only [run, runG] at hrun
+    cases hst : stepG copyCfg mkReply srv s i with
+    | none => simp [hst] at hrun
+    | some s2 =>
+      simp only [hst] at hrun
+      exact ih s2 s1 (Reach.step i hr hst) hrun
+
+/-- **Concurrent serving.**  Any number of dispatcher threads serve any requests on one server object;
+    their atomic steps (read-and-decide, `copy()`, `config.version = 1.0`, build the reply from `config`)
+    are interleaved arbitrarily.  In every reachable state
+    (a) every configuration object of the initial heap — the server's, the shared default, anyone's —
+        observes exactly what it observed initially, and
+    (b) thread `i` still serves request `i`, and once it has finished it holds exactly the reply that
+        the sequential, history-free specification (`specReply`, as in `C13_history_free`) gives to its
+        own request: no interleaving is distinguishable from serving the requests one by one. -/
+theorem C13_concurrent {Reply} (mkReply : CfgView → Req → Reply) (mkInvalid : CfgView → PyVal → Reply)
+    (h0 : Heap) (srv : Nat) (sv : CfgView) (reqs : List Req) (hs0 : view h0 srv = some sv)
+    (s : Sys Reply) (hr : Reach mkReply srv (initSys h0 reqs) s) :
+    (∀ a v, view h0 a = some v → view s.heap a = some v) ∧
+    (∀ (i : Nat) (t : Thread Reply), s.threads[i]? = some t →
+      reqs[i]? = some t.req ∧
+      (t.pc = .done → t.reply = some (specReply mkReply mkInvalid sv (.valid t.req)))) := by
+  have hinv := cinv_reach mkReply mkInvalid h0 srv sv reqs hs0 s hr
+  refine ⟨hinv.frame, ?_⟩
+  intro i t hti
+  refine ⟨?_, ?_⟩
+  · rw [← hinv.reqs, List.getElem?_map, hti]; rfl
+  · intro hpc
+    have := hinv.loc i t hti
+    simpa only [TInv, hpc] using this
+
+/-- The same for schedules: whatever sequence of thread indices is executed from the initial state. -/
+theorem C13_concurrent_schedule {Reply} (mkReply : CfgView → Req → Reply) (mkInvalid : CfgView → PyVal → Reply)
+    (h0 : Heap) (srv : Nat) (sv : CfgView) (reqs : List Req) (hs0 : view h0 srv = some sv)
+    (sched : List Nat) (s : Sys Reply) (hrun : run mkReply srv (initSys h0 reqs) sched = some s) :
+    (∀ a v, view h0 a = some v → view s.heap a = some v) ∧
+    (∀ (i : Nat) (t : Thread Reply), s.threads[i]? = some t →
+      reqs[i]? = some t.req ∧
+      (t.pc = .done → t.reply = some (specReply mkReply mkInvalid sv (.valid t.req)))) :=
+  C13_concurrent mkReply mkInvalid h0 srv sv reqs hs0 s
+    (reach_of_run mkReply srv _ sched _ _ Reach.init hrun)
+
+/-- No statement of a dispatcher thread can fail under any interleaving (no dangling `config`), so
+    every unfinished thread can always take its next step: part (b) of `C13_concurrent` is not vacuous. -/
+theorem C13_concurrent_progress {Reply} (mkReply : CfgView → Req → Reply)
+    (h0 : Heap) (srv : Nat) (sv : CfgView) (reqs : List Req) (hs0 : view h0 srv = some sv)
+    (s : Sys Reply) (hr : Reach mkReply srv (initSys h0 reqs) s)
+    (i : Nat) (t : Thread Reply) (hti : s.threads[i]? = some t) (hpc : t.pc ≠ .done) :
+    ∃ s1, step mkReply srv s i = some s1 := by
+  have hinv := cinv_reach mkReply (fun _ _ => mkReply sv t.req) h0 srv sv reqs hs0 s hr
+  have hsrv : view s.heap srv = some sv := hinv.frame srv sv hs0
+  have hloc := hinv.loc i t hti
+  unfold TInv at hloc
+  unfold step stepG stepThreadG
+  simp only [hti]
+  cases hp : t.pc with
+  | decide =>
+    simp only [hp, hsrv]
+    by_cases hc : needsCompat sv t.req = true
+    · simp only [hc, ↓reduceIte]; exact ⟨_, rfl⟩
+    · simp only [hc, Bool.false_eq_true, ↓reduceIte]; exact ⟨_, rfl⟩
+  | copy =>
+    obtain ⟨c, _, hspec⟩ := copy_spec s.heap srv sv hsrv
+    simp only [hp, hspec]
+    exact ⟨_, rfl⟩
+  | store =>
+    simp only [hp] at hloc ⊢
+    obtain ⟨_, a, hca, _, _⟩ := hloc
+    simp only [hca]
+    exact ⟨_, rfl⟩
+  | reply =>
+    simp only [hp] at hloc ⊢
+    rcases hloc with ⟨_, a, hca, _, hva⟩ | ⟨_, hca⟩
+    · simp only [hca, hva]; exact ⟨_, rfl⟩
+    · simp only [hca, hsrv]; exact ⟨_, rfl⟩
+  | done => exact absurd hp hpc
+
+/-- The witness heap of the concurrent examples: the server's object at address 0 (version 2.0) and the
+    shared default at address 1, each with its own two dictionaries. -/
+def c13ConcHeap : Heap :=
+  { cfgs := [⟨20, "ct", "ua", true, "_serialize", "_ignore", 0, 1⟩,
+             ⟨20, "ct", "ua", true, "_serialize", "_ignore", 2, 3⟩],
+    dicts := [[("K", "cls")], [], [], []] }
+
+/-- Thread 0 serves a request without "jsonrpc" (needs the 1.0 adaptation), thread 1 one with it. -/
+def c13ConcReqs : List Req := [⟨false, .none⟩, ⟨true, .none⟩]
+
+/- Non-vacuity of `C13_concurrent` (two threads, replies = form of the per-request configuration).
+   Schedule: t0 decides, t0 copies (address 2), t1 decides, **t1 replies between t0's copy and t0's store**,
+   t0 stores, t0 replies.  Both finish; replies are 1.0 / 2.0 form; server and default still observe 2.0;
+   the copy (address 2) observes 1.0. -/
+example :
+    let r := run (fun v (_ : Req) => formOf v) 0 (initSys c13ConcHeap c13ConcReqs) [0, 0, 1, 1, 0, 0]
+    r.map (fun s => s.threads.map (fun t => (t.pc, t.cfgAddr, t.reply)))
+      = some [(.done, some 2, some 10), (.done, some 0, some 20)] ∧
+    r.map (fun s => [0, 1, 2].map (fun a => (view s.heap a).map (·.version))) = some [some 20, some 20, some 10] := by
+  decide
+
+/- Two threads that both need the adaptation, the second thread's copy allocated between the first
+   thread's copy and store: each owns its own copy (addresses 2 and 3), both reply in 1.0 form, the
+   server's object still observes 2.0 with its class table. -/
+example :
+    let r := run (fun v (_ : Req) => formOf v) 0 (initSys c13ConcHeap [⟨false, .none⟩, ⟨false, .int 1⟩])
+      [0, 1, 0, 1, 0, 1, 1, 0]
+    r.map (fun s => s.threads.map (fun t => (t.pc, t.cfgAddr, t.reply)))
+      = some [(.done, some 2, some 10), (.done, some 3, some 10)] ∧
+    r.map (fun s => [0, 1, 2, 3].map (fun a => (view s.heap a).map (·.version)))
+      = some [some 20, some 20, some 10, some 10] ∧
+    r.map (fun s => (view s.heap 0).map (·.classes.length)) = some (some 1) := by
+  decide
+
+/- A finished thread cannot be scheduled again; an index outside the thread list cannot be scheduled. -/
+example : (run (fun v (_ : Req) => formOf v) 0 (initSys c13ConcHeap c13ConcReqs) [1, 1, 1]).isNone = true := by decide
+example : (run (fun v (_ : Req) => formOf v) 0 (initSys c13ConcHeap c13ConcReqs) [2]).isNone = true := by decide
+
+/-- **Negative companion: the copy is what makes `C13_concurrent` true.**  In the variant whose step
+    `copy` does not copy (`config = self.json_config; config.version = 1.0`, model `aliasCfg`), there is
+    a two-thread schedule after which (a) fails — the server's own object observes version 1.0 instead
+    of 2.0 — and (b) fails — the thread serving a request *with* "jsonrpc" has finished with the 1.0-form
+    reply instead of the sequential 2.0-form one.  (A theorem about the variant, not about the code.) -/
+theorem C13_concurrent_needs_copy :
+    ∃ (sched : List Nat) (s : Sys Nat),
+      runNoCopy (fun v (_ : Req) => formOf v) 0 (initSys c13ConcHeap c13ConcReqs) sched = some s ∧
+      (view c13ConcHeap 0).map (·.version) = some 20 ∧
+      (view s.heap 0).map (·.version) = some 10 ∧
+      (∃ t, s.threads[1]? = some t ∧ t.pc = .done ∧ t.req.hasJsonrpc = true ∧ t.reply = some 10 ∧
+        ∀ sv, view c13ConcHeap 0 = some sv →
+          specReply (fun v (_ : Req) => formOf v) (fun _ _ => 0) sv (.valid t.req) = 20) := by
+  refine ⟨[0, 0, 0, 1, 1], _, rfl, by decide, by decide, _, rfl, by decide, by decide, by decide, ?_⟩
+  intro sv hsv
+  have : sv.version = 20 := by
+    have h := congrArg (Option.map (·.version)) hsv
+    simpa using h.symm.trans (by decide : (view c13ConcHeap 0).map (·.version) = some 20)
+  simp [specReply, formOf, this]
 
 end JRV.Props
